@@ -333,6 +333,73 @@ def loop_shared_ok(edges):
         for n in src:
             reach.setdefault(n, set()).update(targets)
     return reach
+
+
+class Buckets:
+    def __init__(self):
+        self._count = {}
+        self._pruned = {}
+
+    def add(self, k):
+        self._count[k] = self._count.get(k, 0) + 1
+        self._pruned[k] = self._pruned.get(k, 0) + 1
+
+    def drop(self, k):
+        self._count[k] -= 1
+        self._pruned[k] -= 1
+        if not self._pruned[k]:
+            del self._pruned[k]
+
+    def kinds(self):
+        return len(self._count)
+
+    def kinds_ok(self):
+        return len(self._pruned)
+
+
+_lists = {}
+
+
+def len_valid(hg):
+    nodes = _lists.get(hg)
+    if nodes is None or len(nodes) != len(hg.get_adj_dict()):
+        nodes = list(hg.get_nodes())
+        _lists[hg] = nodes
+    return nodes
+
+
+def len_valid_ok(hg, version):
+    entry = _lists.get(hg)
+    if entry is None or entry[0] != version:
+        entry = (version, list(hg.get_nodes()))
+        _lists[hg] = entry
+    return entry[1]
+
+
+def shape_guess(inc, N):
+    if inc.shape[1] == N:
+        inc = inc.T
+    return inc
+
+
+def shape_guess_ok(inc, N):
+    if inc.shape[0] != N and inc.shape[1] == N:
+        inc = inc.T
+    return inc
+
+
+def label_type(h: Hypergraph):
+    out = []
+    for edge in h.get_edges():
+        if len(edge) == 2 and isinstance(edge[0], tuple):
+            out.append(edge[0] + edge[1])
+        else:
+            out.append(edge)
+    return out
+
+
+def label_type_ok(h: Hypergraph):
+    return [edge for edge in h.get_edges() if isinstance(edge, tuple)]
 '''
 
 _PROBE_EXPECT = {
@@ -357,6 +424,14 @@ _PROBE_EXPECT = {
     "counter_update": ("G-COUNTERADD", False),
     "loop_shared": ("E-SHARED", True),
     "loop_shared_ok": ("E-SHARED", False),
+    "Buckets.kinds": ("G-ZEROBUCKET", True),
+    "Buckets.kinds_ok": ("G-ZEROBUCKET", False),
+    "len_valid": ("G-LENVALID", True),
+    "len_valid_ok": ("G-LENVALID", False),
+    "shape_guess": ("G-SHAPEGUESS", True),
+    "shape_guess_ok": ("G-SHAPEGUESS", False),
+    "label_type": ("K-LABELTYPE", True),
+    "label_type_ok": ("K-LABELTYPE", False),
 }
 
 
@@ -368,11 +443,11 @@ def lint_pack_controls(repo: str) -> dict:
     from .effects import check_shared_literals
     from .report import Result
 
-    fns = {"G-STALE": L.check_stale_in_loop, "G-REUSE": L.check_iterator_reuse, "N-FANCYAUG": L.check_fancy_augassign, "G-GROUPBY": L.check_groupby_sorted, "E-SHARED": check_shared_literals, "G-LIVEITER": L.check_mutation_while_iterating, "E-DEFAULTARG": L.check_mutable_defaults, "G-KEYPROJ": L.check_key_projection, "K-OWNER": L.check_id_owner, "G-COUNTERADD": L.check_counter_arith}
+    fns = {"G-STALE": L.check_stale_in_loop, "G-REUSE": L.check_iterator_reuse, "N-FANCYAUG": L.check_fancy_augassign, "G-GROUPBY": L.check_groupby_sorted, "E-SHARED": check_shared_literals, "G-LIVEITER": L.check_mutation_while_iterating, "E-DEFAULTARG": L.check_mutable_defaults, "G-KEYPROJ": L.check_key_projection, "K-OWNER": L.check_id_owner, "G-COUNTERADD": L.check_counter_arith, "G-ZEROBUCKET": L.check_zero_buckets, "G-LENVALID": L.check_len_validated_cache, "G-SHAPEGUESS": L.check_layout_guess, "K-LABELTYPE": L.check_label_type_dispatch}
     ctx = Ctx(repo, "quick", overrides={_PROBE_REL: _PROBE_SRC})
     out = {"controls": [], "broken": []}
     for name, (rule, must) in _PROBE_EXPECT.items():
-        fi = ctx.prog.func(f"_verif_lint_probe.{name}")
+        fi = ctx.prog.func(name if "." in name else f"_verif_lint_probe.{name}")
         tmp = Result("LINT")
         try:
             fns[rule](ctx, tmp, fi)
